@@ -441,9 +441,15 @@ pub fn discr<D: InstructionData>(d: D) -> [u8; 8] {
 }
 
 // ---------------------------------------------------------------- Kamino pass-through
-/// Venue-side accounts of a Kamino bank.
+#[derive(Clone, Copy, Debug, PartialEq, Eq)]
+pub enum VenueKind {
+    Kamino,
+    Solend,
+}
+/// Venue-side accounts of a pass-through bank (Kamino and Solend share the reserve/obligation shape).
 #[derive(Clone, Copy, Debug)]
-pub struct KaminoKeys {
+pub struct VenueKeys {
+    pub kind: VenueKind,
     pub market: Pubkey,
     pub lma: Pubkey,
     pub reserve: Pubkey,
@@ -451,6 +457,8 @@ pub struct KaminoKeys {
     pub supply: Pubkey,
     pub col_mint: Pubkey,
     pub col_supply: Pubkey,
+    /// Solend only: the (unchecked) user collateral token account slot
+    pub user_collateral: Pubkey,
 }
 #[allow(clippy::too_many_arguments)]
 pub fn add_bank_kamino(group: Pubkey, admin: Pubkey, fee_payer: Pubkey, mint: Pubkey, seed: u64, reserve: Pubkey, obligation: Pubkey, token_program: Pubkey, cfg: marginfi::state::kamino::KaminoConfigCompact, rem: Vec<AccountMeta>) -> (Instruction, Pubkey) {
@@ -470,7 +478,7 @@ pub fn add_bank_kamino(group: Pubkey, admin: Pubkey, fee_payer: Pubkey, mint: Pu
     )
 }
 #[allow(clippy::too_many_arguments)]
-pub fn kamino_deposit(group: Pubkey, acct: Pubkey, authority: Pubkey, bank: Pubkey, ta: Pubkey, mint: Pubkey, token_program: Pubkey, kk: &KaminoKeys, amount: u64) -> Instruction {
+pub fn kamino_deposit(group: Pubkey, acct: Pubkey, authority: Pubkey, bank: Pubkey, ta: Pubkey, mint: Pubkey, token_program: Pubkey, kk: &VenueKeys, amount: u64) -> Instruction {
     mk(
         marginfi::accounts::KaminoDeposit {
             group, marginfi_account: acct, authority, bank, signer_token_account: ta,
@@ -486,7 +494,7 @@ pub fn kamino_deposit(group: Pubkey, acct: Pubkey, authority: Pubkey, bank: Pubk
     )
 }
 #[allow(clippy::too_many_arguments)]
-pub fn kamino_withdraw(group: Pubkey, acct: Pubkey, authority: Pubkey, bank: Pubkey, ta: Pubkey, mint: Pubkey, token_program: Pubkey, kk: &KaminoKeys, amount: u64, all: Option<bool>, rem: Vec<AccountMeta>) -> Instruction {
+pub fn kamino_withdraw(group: Pubkey, acct: Pubkey, authority: Pubkey, bank: Pubkey, ta: Pubkey, mint: Pubkey, token_program: Pubkey, kk: &VenueKeys, amount: u64, all: Option<bool>, rem: Vec<AccountMeta>) -> Instruction {
     mk(
         marginfi::accounts::KaminoWithdraw {
             group, marginfi_account: acct, authority, bank, destination_token_account: ta,
@@ -498,6 +506,56 @@ pub fn kamino_withdraw(group: Pubkey, acct: Pubkey, authority: Pubkey, bank: Pub
             collateral_token_program: spl_token::ID, liquidity_token_program: token_program, instruction_sysvar_account: sysvar::instructions::ID,
         },
         marginfi::instruction::KaminoWithdraw { amount, withdraw_all: all },
+        rem,
+    )
+}
+
+// ---------------------------------------------------------------- Solend pass-through
+#[allow(clippy::too_many_arguments)]
+pub fn add_bank_solend(group: Pubkey, admin: Pubkey, fee_payer: Pubkey, mint: Pubkey, seed: u64, reserve: Pubkey, token_program: Pubkey, cfg: marginfi::state::solend::SolendConfigCompact, rem: Vec<AccountMeta>) -> (Instruction, Pubkey, Pubkey) {
+    let bank = bank_pda(&group, &mint, seed);
+    let k = BankKeys::of(bank);
+    let obligation = Pubkey::find_program_address(&[marginfi::constants::SOLEND_OBLIGATION_SEED.as_bytes(), bank.as_ref()], &MFI).0;
+    (
+        mk(
+            marginfi::accounts::LendingPoolAddBankSolend {
+                group, admin, fee_payer, bank_mint: mint, bank, integration_acc_1: reserve, integration_acc_2: obligation,
+                liquidity_vault_authority: k.lva, liquidity_vault: k.lv, insurance_vault_authority: k.iva, insurance_vault: k.iv, fee_vault_authority: k.fva, fee_vault: k.fv,
+                token_program, system_program: system_program::ID,
+            },
+            marginfi::instruction::LendingPoolAddBankSolend { bank_config: cfg, bank_seed: seed },
+            rem,
+        ),
+        bank,
+        obligation,
+    )
+}
+#[allow(clippy::too_many_arguments)]
+pub fn solend_deposit(group: Pubkey, acct: Pubkey, authority: Pubkey, bank: Pubkey, ta: Pubkey, mint: Pubkey, token_program: Pubkey, kk: &VenueKeys, amount: u64) -> Instruction {
+    mk(
+        marginfi::accounts::SolendDeposit {
+            group, marginfi_account: acct, authority, bank, signer_token_account: ta,
+            liquidity_vault_authority: pda(LIQUIDITY_VAULT_AUTHORITY_SEED, &bank), liquidity_vault: pda(LIQUIDITY_VAULT_SEED, &bank),
+            integration_acc_2: kk.obligation, lending_market: kk.market, lending_market_authority: kk.lma, integration_acc_1: kk.reserve, mint,
+            reserve_liquidity_supply: kk.supply, reserve_collateral_mint: kk.col_mint, reserve_collateral_supply: kk.col_supply, user_collateral: kk.user_collateral,
+            pyth_price: system_program::ID, switchboard_feed: system_program::ID,
+            solend_program: marginfi::constants::SOLEND_PROGRAM_ID, token_program,
+        },
+        marginfi::instruction::SolendDeposit { amount },
+        vec![],
+    )
+}
+#[allow(clippy::too_many_arguments)]
+pub fn solend_withdraw(group: Pubkey, acct: Pubkey, authority: Pubkey, bank: Pubkey, ta: Pubkey, mint: Pubkey, token_program: Pubkey, kk: &VenueKeys, amount: u64, all: Option<bool>, rem: Vec<AccountMeta>) -> Instruction {
+    mk(
+        marginfi::accounts::SolendWithdraw {
+            group, marginfi_account: acct, authority, bank, destination_token_account: ta,
+            liquidity_vault_authority: pda(LIQUIDITY_VAULT_AUTHORITY_SEED, &bank), liquidity_vault: pda(LIQUIDITY_VAULT_SEED, &bank),
+            integration_acc_2: kk.obligation, lending_market: kk.market, lending_market_authority: kk.lma, integration_acc_1: kk.reserve, mint,
+            reserve_liquidity_supply: kk.supply, reserve_collateral_mint: kk.col_mint, reserve_collateral_supply: kk.col_supply, user_collateral: kk.user_collateral,
+            solend_program: marginfi::constants::SOLEND_PROGRAM_ID, token_program,
+        },
+        marginfi::instruction::SolendWithdraw { amount, withdraw_all: all },
         rem,
     )
 }
